@@ -150,7 +150,7 @@ def _dump_bytes(obj, stream):
 @register(_dump_registry, type(u""))
 def _dump_str(obj, stream):
     stream.append(TAG_UNICODE)
-    _dump_bytes(obj.encode("utf8"), stream)
+    _dump_bytes(obj.encode("utf8", "surrogatepass"), stream)
 
 
 @register(_dump_registry, tuple)
@@ -265,7 +265,7 @@ def _load_str_l4(stream):
 @register(_load_registry, TAG_UNICODE)
 def _load_unicode(stream):
     obj = _load(stream)
-    return obj.decode("utf-8")
+    return obj.decode("utf-8", "surrogatepass")
 
 
 @register(_load_registry, TAG_TUP1)
